@@ -3667,6 +3667,18 @@ def pack_objects_to_data(
       progress: Optional progress reporting callback
     Returns: Tuples with (type_num, hexdigest, delta base, object chunks)
     """
+    # An object may be listed more than once (the same blob under two paths,
+    # say). A pack holds every object once: the index has one entry per name
+    # and git refuses a pack in which an object appears twice.
+    seen: set[bytes] = set()
+    unique = []
+    for entry in objects:
+        obj = entry[0] if isinstance(entry, tuple) else entry
+        if obj.id in seen:
+            continue
+        seen.add(obj.id)
+        unique.append(entry)
+    objects = unique  # type: ignore[assignment]
     count = len(objects)
     if deltify is None:
         # PERFORMANCE/TODO(jelmer): This should be enabled but the python
